@@ -22,6 +22,36 @@ CHECKS = {
         technique=TECH + "seeded op/fault histories refined against a built-in list model, "
                          "ddmin-shrunk JSON replay",
         design="4 (C05/C06/C07)"),
+    "C06": dict(
+        level="exploration",
+        text=("Seeded simulated histories over every TraitDict mutator of the quantifier "
+              "(mapping and pair-iterable update/|= with duplicate and coercible keys, "
+              "malformed pairs, raising iterables, setdefault, pop with/without default, "
+              "popitem, clear) with key/value validators that are fault points, refined op by "
+              "op against a built-in dict; the reconstruction law is checked on the arguments "
+              "seen by every raw notifier at call time, wherever it sits relative to "
+              "observers, and on the merged DictChangeEvent of observers. Sampling, not proof."),
+        note=("Trusts CPython's dict as the model; lookup-style operations are generated with "
+              "already-valid keys only, so the two readings of 'same operations on validated "
+              "keys' coincide."),
+        technique=TECH + "seeded op/fault histories refined against a built-in dict model, "
+                         "ddmin-shrunk JSON replay",
+        design="4 (C05/C06/C07)"),
+    "C07": dict(
+        level="exploration",
+        text=("Seeded simulated histories over every TraitSet mutator of the quantifier with "
+              "overlapping, disjoint, coercible and invalid arguments, validator faults at the "
+              "k-th item, raising iterables and non-set operands, refined against a built-in "
+              "set with the delta and silence laws on every event; copy/deepcopy/pickle "
+              "(protocols 2-5) act as restart events at arbitrary points, after which the copy "
+              "must be equal, independent and still validating and the history continues on "
+              "it. Sampling, not proof."),
+        note=("Trusts CPython's set as the model; pop() is arbitrary so the model follows the "
+              "system's choice; coercible spellings are fresh numbers (never collide with a "
+              "member)."),
+        technique=TECH + "seeded op/fault/restart histories refined against a built-in set "
+                         "model, ddmin-shrunk JSON replay",
+        design="4 (C05/C06/C07)"),
 }
 
 NOT_APPLICABLE = {
